@@ -1,12 +1,14 @@
 use crate::report::Args;
 
 pub mod c16;
+pub mod c17;
 pub mod mux;
 
 pub fn run(args: &Args) -> i32 {
     match args.prop.as_str() {
         "C16" => c16::run(args),
         "C01" | "C02" | "C14" => mux::run(args),
+        "C17" => c17::run(args),
         other => {
             eprintln!("unknown property {}", other);
             2
